@@ -15,6 +15,18 @@ CHECKS = {
          'reader: every stream the independent encoder emits must load to the layout it encodes; writer: every file gdstk writes must pass '
          'the strict decoder and decode to the model of the spec',
          'trusts py/gds_codec.py (DESIGN.md appendix A); sampled layouts and serialisation choices', '7/C03'),
+ 'C05': ('exploration', 'region monitor: exact integer winding numbers of the rounded operands at guarded sample points + exact area identities, under ASan+UBSan',
+         'every boolean result is evaluated at <= 260 sample points per operation with exact arithmetic: membership = op(membership of operands), no point '
+         'covered twice, |winding| <= 1; area identities among or/and/xor/not; chained operations feed results with slits back in',
+         'points within 2 grid units of an operand edge are not judged; operands sampled from lattice polygon families', '7/C05'),
+ 'C12': ('exploration', 'region monitor (exact winding/area on the precision grid) + in-code progress hook H1 deciding termination in logical steps',
+         'fracture pieces and slice bins are checked for vertex limit, copied attributes, exact area and exact membership (exactly one piece covers '
+         'each interior sample point); the re-slicing loop is bounded by the hook',
+         'polygons simple by construction; points within 2 grid units of an original edge are not judged', '7/C12, 4/H1'),
+ 'C13': ('exploration', 'region monitor: exact membership + float distance to the rounded input boundary at sample points outside a guard band around d',
+         'points nearer than |d|-g must be gained/lost, points farther than reach*|d|+g must not, for all three joins, both signs, both union settings, '
+         'split regions and keyholes',
+         'guard g = 2 + reach + arc sagitta grid units (integer offsetting artefacts); corner angles >= 20 degrees (known finding for needle tips)', '7/C13'),
  'C14': ('exploration', 'online monitor with exact __int128 winding-number / shoelace oracle; exhaustive on small grids',
          'every answer of contain/contain_all/contain_any/inside/all_inside/any_inside/area/signed_area/perimeter is compared with '
          'exact integer predicates; complete for all vertex lists of length 0..4 on a 4x4 grid x 81 query points (thorough: +5-vertex '
